@@ -35,6 +35,7 @@ def run(rep: Report, tier: str) -> None:
 	rule_c(rep, idx, nm, gm)
 	rule_d(rep, idx, nm, gm)
 	rule_e(rep, idx, nm, gm)
+	rule_f(rep, idx, nm, gm)
 
 
 def py_key(tok: str, kind: str) -> str:
@@ -443,3 +444,62 @@ def rule_e(rep: Report, idx: SourceIndex, nm: NodeModel, gm: GrammarModel) -> No
 			r.check(requires_name, f'parent:{p_}', (pm.relpath, line), f'under `{p_}` the grammar allows {mixed} children (expressions) besides the declared `name`; the early-accept branch `{tsrc}` does not require the entry tag to be `name`, so a bare name used as an expression there (`with lock:`) is classified as a declaration instead of a reference', tsrc)
 		else:
 			r.ok(f'parent:{p_}', (pm.relpath, line), message='only `name` children can be DeclLocalVar candidates here')
+
+
+# ---- (f) path tests address the NEAREST enclosing element ----------------------------------------------------------------------------------
+
+def rule_f(rep: Report, idx: SourceIndex, nm: NodeModel, gm: GrammarModel) -> None:
+	"""A classification test such as "is this def directly inside a class body" looks at the END of the entry path (elems[-3], last_index_of).
+	`elems.index(tag)` finds the OUTERMOST occurrence instead; for a tag that can contain itself (class in class, def in def) that is a different
+	element, so nested constructs are classified by their outermost ancestor."""
+	r = rep.rule('C02/path-tests-nearest-ancestor', 'no classification test in the node definitions locates a self-nesting tag on an entry path with list.index (first = outermost occurrence); nearest-ancestor tests index from the end', floor=1)
+	# tags that can (transitively) contain themselves
+	kids = {t: set(gm.child_tags(t)) for t in gm.tags()}
+	def reach(t: str) -> set[str]:
+		seen: set[str] = set()
+		work = list(kids.get(t, ()))
+		while work:
+			x = work.pop()
+			if x in seen:
+				continue
+			seen.add(x)
+			work.extend(kids.get(x, ()))
+		return seen
+	nesting = {t for t in kids if t in reach(t)}
+	r.check(bool(nesting) and 'class_def_raw' in nesting and 'function_def_raw' in nesting, 'self-nesting-tags', (gm.relpath, 1), f'the grammar model finds {len(nesting)} self-nesting tags; class_def_raw / function_def_raw must be among them')
+	n_index = 0
+	for m in nm.def_mods:
+		for q, f in m.functions.items():
+			if '#' in q:
+				continue
+			for c_, tag in _first_occurrence_lookups(f.node):
+				n_index += 1
+				r.check(tag not in nesting, f'{q}:{unparse(c_)}', (m.relpath, c_.lineno), f'`{unparse(c_)}` takes the FIRST occurrence of `{tag}` on the entry path, i.e. the outermost one; `{tag}` can contain itself, so for a nested construct (class in class, def in a local class) this is not the directly enclosing element and the node is classified by its outermost ancestor (use the end of the path: elems[-k] / last_index_of)', unparse(c_))
+	# the expected count on the unchanged tree is zero: keep the recogniser honest with a positive fixture
+	import os
+	from vlib.core import VERIF
+	fxp = os.path.join(VERIF, 'selftest', 'fixtures', 'c02_index_positive.py')
+	try:
+		with open(fxp) as fh:
+			ftree = ast.parse(fh.read())
+	except OSError:
+		raise AnalysisError('positive fixture selftest/fixtures/c02_index_positive.py missing')
+	hits = sorted(tag for fn in ftree.body if isinstance(fn, ast.FunctionDef) for _, tag in _first_occurrence_lookups(fn))
+	r.check(hits == ['class_def_raw', 'function_def_raw'], 'positive-fixture', ('selftest/fixtures/c02_index_positive.py', 1), f'the first-occurrence recogniser finds {hits} in the positive fixture (expected the two forward lookups and not the reversed one)')
+	r.note(f'{n_index} first-occurrence lookups on entry paths in the node definitions')
+
+
+def _first_occurrence_lookups(fn_node: ast.AST) -> list[tuple[ast.Call, str]]:
+	"""`<path elements>.index('<tag>')` calls: the receiver is `.elements` of a path or a name bound to it, not reversed"""
+	paths: set[str] = set()
+	for n in ast.walk(fn_node):
+		tgt = n.targets[0] if isinstance(n, ast.Assign) and len(n.targets) == 1 else n.target if isinstance(n, ast.AnnAssign) and n.value is not None else None
+		if isinstance(tgt, ast.Name) and any(isinstance(x, ast.Attribute) and x.attr == 'elements' for x in ast.walk(n.value)) and not any(isinstance(x, ast.Call) and unparse(x.func) == 'reversed' for x in ast.walk(n.value)) and '::-1' not in unparse(n.value):
+			paths.add(tgt.id)
+	out = []
+	for c_ in ast.walk(fn_node):
+		if isinstance(c_, ast.Call) and isinstance(c_.func, ast.Attribute) and c_.func.attr == 'index' and len(c_.args) == 1 and const_str(c_.args[0]) is not None:
+			recv = c_.func.value
+			if (isinstance(recv, ast.Name) and recv.id in paths) or (isinstance(recv, ast.Attribute) and recv.attr == 'elements'):
+				out.append((c_, const_str(c_.args[0])))
+	return out
